@@ -19,7 +19,7 @@ RULE = ('seeded generator: circular / hexagon-like / segmented / off-centre / sp
 ASSUMPTIONS = ['modes linearly independent on the mask (condition number < 1e8), as the property requires']
 PLAN = {'quick': {'gen': 8}, 'thorough': {'gen': 16, 'tests': 1}}
 REQUIRED_BUCKETS = ['modes:contiguous', 'modes:noncontiguous', 'modes:unordered', 'modes:single-high', 'normalize:True',
-                    'normalize:False', 'coords:default', 'coords:supplied', 'mask:circular', 'mask:segmented', 'mask:offcentre', 'mask:weighted', 'mask:subaperture', 'cond>1e4', 'coords:switched', 'outside:fill', 'coeffs:vector-forms']
+                    'normalize:False', 'coords:default', 'coords:supplied', 'mask:circular', 'mask:segmented', 'mask:offcentre', 'mask:weighted', 'mask:subaperture', 'cond>1e4', 'coords:switched', 'outside:fill', 'coeffs:vector-forms', 'modes:very-high']
 REQUIRED_ANCHORS = ['anchor:zernike_fit', 'anchor:zernike_remove', 'anchor:zernike_compose', 'anchor:zernike_basis']
 REQUIRED_ORACLES = ['compose=own-basis', 'fit=coeffs', 'remove:residual-coeffs=0', 'remove=lstsq', 'remove:idempotent',
                     'remove:pure->0']
@@ -35,7 +35,7 @@ def anchors(lentil):
             ('zernike_basis', z.zernike_basis)]
 
 
-_NOLL = rm.noll_table(64)
+_NOLL = rm.noll_table(1400)
 
 
 def own_basis(modes, mask, rho, theta, normalize):
@@ -44,7 +44,7 @@ def own_basis(modes, mask, rho, theta, normalize):
     out = []
     for j in modes:
         n, m, par = _NOLL[int(j)]
-        out.append(np.asarray(rm.zernike_value(n, m, par, rho, theta, normalize, sine_sign=-1), float) * (mask != 0))
+        out.append(np.asarray(rm.zernike_value(n, m, par, rho, theta, normalize, sine_sign=-1, exact=n > 16), float) * (mask != 0))
     return np.array(out)
 
 
@@ -108,6 +108,10 @@ def workload(ctx, lentil):
                 modes = modes[::-1]
         else:
             modes = [int(rng.integers(4, 37))]; mb = 'modes:single-high'
+            if i % 3 == 0:
+                # a high-order mode together with a few low ones (the basis is evaluated stably at every order)
+                modes = [int(rng.integers(200, 1327))] + rng.permutation([1, 2, 3, 4]).tolist()[:int(rng.integers(0, 4))]
+                ctx.bucket('modes:very-high')
         normalize = bool(rng.random() < 0.5)
         supplied = bool(rng.random() < 0.5) or sub
         if supplied:
